@@ -399,7 +399,9 @@ def r5(ctx):
                 table[(situation, optional, listk)] = outs
     want = {("end", True, True): {"set:None"}, ("end", True, False): {"set:None"}, ("end", False, True): {"set:[]"}, ("end", False, False): {"raise:MissingRequiredParameter"},
             ("closing", True, True): {"set:None"}, ("closing", True, False): {"set:None"},
-            ("closing", False, True): {"raise:MissingRequiredParameter"}, ("closing", False, False): {"raise:MissingRequiredParameter"}}
+            # the end of an enclosing context is the end of this sequence's data: an empty required list is [] there too
+            # (an AtomicReadFile-ACK with zero records); the pinned tree raised here, see KF-28
+            ("closing", False, True): {"set:[]"}, ("closing", False, False): {"raise:MissingRequiredParameter"}}
     for k, v in want.items():
         ctx.check("Sequence.decode:end-of-data[%s,optional=%s,list=%s]" % k, table.get(k) == v, where(c.module, dec),
                   "at %s of the data an %s %s element must give %s (found %s)" % ("the end" if k[0] == "end" else "a closing tag", "optional" if k[1] else "required", "list" if k[2] else "non-list", sorted(v), sorted(table.get(k) or [])))
